@@ -13,6 +13,9 @@
       writes to names no forward reads and that are neither parameters nor buffers; a
       forward-written attribute must be recomputed before it is read.
  R07d the two BatchNorm folding blocks (PIT, MPS) implement the same, correct formula.
+ R07e mode typestate of internal forward passes: the shape-propagation pass of every
+      conversion runs after eval() with no train(...) in between (BatchNorm statistics of the
+      caller's layers are not updated by the import).
 """
 from __future__ import annotations
 
@@ -235,9 +238,15 @@ def r07b(ctx):
 def r07c(ctx):
     repo = ctx.repo
     E = Effects(repo)
-    for wname in ('PIT', 'SuperNet'):
+    for wname in ('PIT', 'SuperNet', 'MPS'):
         w = repo.cls(wname)
         init = w.methods['__init__']
+        if wname == 'MPS':
+            # MPS converts a copy: only the mode typestate of its internal passes is judged
+            for e in E.closure(init):
+                if e.kind == 'forward':
+                    r07e_ob(ctx, wname, e)
+            continue
         model_atom = 'p:' + init.params[1]
         pk = '.'.join(w.module.name.split('.')[:3])
         fam = (pk, 'plinio.graph')
@@ -275,6 +284,7 @@ def r07c(ctx):
                            nontrivial=False)
                 continue
             if e.kind == 'forward':
+                r07e_ob(ctx, wname, e)
                 bad = sorted(a for a in fwd_written if not recomputed_before_read(ctx, E, a, fam))
                 ctx.ob('R07c', lbl, not bad,
                        'the shape-propagation forward only refreshes state that every forward '
@@ -307,6 +317,56 @@ def r07c(ctx):
                        f'{site} stores {target} = {e.detail[:70]} on a layer that may belong to the '
                        f'caller\'s model (via {via}); forward reads {target}, so the user\'s model '
                        f'changes behaviour', e.where())
+
+
+def r07e_ob(ctx, wname: str, e: Effect, rule: str = 'R07e', what: str = '__init__'):
+    st, det = forward_mode(ctx, e)
+    if st is None:
+        return
+    site = e.fn.qualname.split('plinio.')[-1]
+    ctx.ob(rule, f'{wname}.{what} internal forward pass in {site} runs in eval mode',
+           st == 'eval',
+           'the layers were switched to eval() and not switched back before the pass: '
+           'BatchNorm statistics are not updated' if st == 'eval' else
+           f'{det} can put the traced layers back in training mode before the internal forward '
+           f'pass at {e.where()}: every BatchNorm reached by the pass updates running_mean / '
+           f'running_var / num_batches_tracked with the input example, so the model no longer '
+           f'computes what it did', e.where())
+
+
+def forward_mode(ctx, e: Effect) -> Tuple[Optional[str], str]:
+    """Training-mode typestate at an internal forward pass (shape propagation, dummy run): on
+    every path of the function that contains the pass, the most recent mode call before it --
+    ``x.eval()`` / ``x.train(False)`` give 'eval', ``x.train()`` / ``x.train(flag)`` give
+    'train?' -- decides the mode the layers run in.  Returns the worst state over the paths
+    (None when the function switches no mode before the pass) and the offending call."""
+    worst, detail = None, ''
+    seen_fwd = False
+    for p in paths(ctx.repo, e.fn):
+        state, last = None, ''
+        for ev in p.events:
+            if ev.kind != 'call':
+                continue
+            ln = getattr(ev.node, 'lineno', None)
+            end = getattr(ev.node, 'end_lineno', ln)
+            mc = method_call(ev.data[0])
+            if ln is not None and ln <= e.lineno <= (end or ln) and \
+                    (mc is None or mc[1] not in ('eval', 'train')) and \
+                    (mc is not None and mc[1] in ('propagate', 'forward') or mc is None):
+                seen_fwd = True
+                if state == 'train?':
+                    worst, detail = state, last
+                elif state == 'eval' and worst is None:
+                    worst = 'eval'
+                break
+            if mc is not None and mc[1] in ('eval', 'train') and len(mc[2]) <= 1 and not mc[3]:
+                if mc[1] == 'eval' or (mc[2] and mc[2][0] == ('const', False)):
+                    state = 'eval'
+                else:
+                    state, last = 'train?', f'{show(ev.data[0])[:70]} at line {ln}'
+    if not seen_fwd:
+        return None, ''
+    return worst, detail
 
 
 def attr_of(t: Optional[Term]) -> Optional[str]:
